@@ -167,102 +167,8 @@ func runC08(c *Ctx) {
 		return
 	}
 
-	// ---- C08.retry
 	rule := "C08.retry"
-	c.R.Rule(rule, "in the receive loop the only way back to the next packet read from a failed packet() is through the true edges of an unwrapping test of that error (errors.As / errors.Is on the error itself - packet() wraps it) and of Timeout(); packet() performs exactly one wire read, outside any loop, and every packet code fits in one byte, so a timeout can only expire between packets")
-	pk := core.FindCalls(r.Receiver, isClientMethod("packet"))
-	if len(pk) != 1 {
-		c.R.Unk(rule, core.FuncName(r.Receiver), cfg, p.Pos(r.Receiver.Pos()), sprintf("%d packet() calls in the receiver", len(pk)))
-	} else {
-		call := pk[0]
-		in := call.(ssa.Instruction)
-		ev := core.ErrValue(call)
-		al := core.Aliases(r.Receiver, ev)
-		unwrapTrue := core.PredEdges(r.Receiver, true, func(cond ssa.Value) (bool, bool) {
-			cl, ok := core.CallTo(cond, func(f *types.Func) bool {
-				if f.Pkg() == nil || (f.Pkg().Path() != "errors" && f.Pkg().Path() != "github.com/go-faster/errors") {
-					return false
-				}
-				return f.Name() == "As" || f.Name() == "Is"
-			})
-			if !ok || len(cl.Call.Args) < 1 {
-				return false, false
-			}
-			// the error itself, or - inside a boolean helper - the helper's error parameter
-			if _, isParam := cl.Call.Args[0].(*ssa.Parameter); !al[cl.Call.Args[0]] && !(isParam && cl.Parent() != r.Receiver) {
-				return false, false
-			}
-			return true, true
-		})
-		timeoutTrue := core.PredEdges(r.Receiver, true, func(cond ssa.Value) (bool, bool) {
-			cl, ok := cond.(*ssa.Call)
-			if !ok {
-				return false, false
-			}
-			f := core.CalleeFunc(cl)
-			return true, f != nil && f.Name() == "Timeout"
-		})
-		isDeadline := core.PredEdges(r.Receiver, true, func(cond ssa.Value) (bool, bool) {
-			// errors.Is(err, os.ErrDeadlineExceeded) form needs no Timeout()
-			cl, ok := core.CallTo(cond, func(f *types.Func) bool { return f.Name() == "Is" })
-			if !ok || len(cl.Call.Args) != 2 {
-				return false, false
-			}
-			u, ok := cl.Call.Args[1].(*ssa.UnOp)
-			if !ok {
-				return false, false
-			}
-			g, ok := u.X.(*ssa.Global)
-			return true, ok && g.Name() == "ErrDeadlineExceeded"
-		})
-		// nil edge of the error
-		nilEdge := func(b *ssa.BasicBlock, i int) bool {
-			if ifi, ok := b.Instrs[len(b.Instrs)-1].(*ssa.If); ok {
-				if ns, ok := core.NilTest(ifi, al); ok && ns == i {
-					return false
-				}
-			}
-			return true
-		}
-		key := core.CallKey(r.Receiver, call)
-		// paths from the call, on its error branch, back to the call
-		back := func(filter core.EdgeFilter) bool {
-			w := core.ReachAvoiding(core.PointOf(in), func(x ssa.Instruction) bool { return x == in }, nil,
-				func(b *ssa.BasicBlock, i int) bool { return nilEdge(b, i) && (filter == nil || filter(b, i)) })
-			return len(w) > 0
-		}
-		switch {
-		case !back(nil):
-			c.R.Bad(rule, key, cfg, p.Pos(in.Pos()), "a read timeout between packets is no longer retried: no path leads from a failed packet() back to the next read")
-		case back(core.WithoutEdges(unwrapTrue)):
-			c.R.Bad(rule, key, cfg, p.Pos(in.Pos()), "the retry is reachable without an unwrapping test (errors.As / errors.Is) of the packet error: either every error is retried or - since packet() wraps its error - the timeout is never recognised")
-		case len(isDeadline) == 0 && back(core.WithoutEdges(timeoutTrue)):
-			c.R.Bad(rule, key, cfg, p.Pos(in.Pos()), "the retry does not depend on Timeout(): non-timeout network errors are retried forever")
-		default:
-			c.R.Ok(rule, key, cfg, p.Pos(in.Pos()), "retry <=> errors.As(err, *net.OpError) && Timeout()")
-		}
-		// once the error is recognised as a timeout, the only way out other than the next
-		// read is the loop's own test of the context
-		recognised := timeoutTrue
-		if len(isDeadline) > 0 {
-			recognised = append(append([]core.Edge{}, timeoutTrue...), isDeadline...)
-		}
-		for _, e := range recognised {
-			hits := core.ReachAvoiding(core.Point{B: e.B.Succs[e.Succ], I: -1}, func(x ssa.Instruction) bool {
-				ret, ok := x.(*ssa.Return)
-				if !ok || x.Block().Comment == "recover" {
-					return false
-				}
-				rv := core.ReturnErr(r.Receiver, ret)
-				return !(rv != nil && chainKeeps(rv, isCtxErr, 0))
-			}, func(x ssa.Instruction) bool { return x == in }, nil)
-			if len(hits) > 0 {
-				c.R.Bad(rule, key+"/timeout-exit", cfg, p.Pos(hits[0].At.Pos()), "after the read error has been recognised as a timeout the receive loop can still return something other than ctx.Err(): an idle gap between packets ends a live query although the context is not done")
-			} else {
-				c.R.Ok(rule, key+"/timeout-exit", cfg, p.Pos(in.Pos()), "from the timeout branch only the next read or `return ctx.Err()` is reachable")
-			}
-		}
-	}
+	ruleRetry(c, p, r, rule)
 	rulePacketRead(c, p, rule)
 	rulePacketDeadline(c, p, "C08.deadline")
 	codes := serverCodes(p)
@@ -588,4 +494,103 @@ func ruleDeadlineDisarmed(c *Ctx, p *core.Program, rule string) {
 	}
 	c.R.Count("deadline arming obligations["+cfg+"]", n)
 	c.R.Floor(rule, cfg, n, 3)
+}
+
+// ruleRetry (C08.retry / C03.retry): the receive loop retries exactly the timeouts between packets.
+func ruleRetry(c *Ctx, p *core.Program, r *doRoles, rule string) {
+	cfg := p.Cfg.Name
+	c.R.Rule(rule, "in the receive loop the only way back to the next packet read from a failed packet() is through the true edges of an unwrapping test of that error (errors.As / errors.Is on the error itself - packet() wraps it) and of Timeout(); packet() performs exactly one wire read, outside any loop, and every packet code fits in one byte, so a timeout can only expire between packets")
+	pk := core.FindCalls(r.Receiver, isClientMethod("packet"))
+	if len(pk) != 1 {
+		c.R.Unk(rule, core.FuncName(r.Receiver), cfg, p.Pos(r.Receiver.Pos()), sprintf("%d packet() calls in the receiver", len(pk)))
+	} else {
+		call := pk[0]
+		in := call.(ssa.Instruction)
+		ev := core.ErrValue(call)
+		al := core.Aliases(r.Receiver, ev)
+		unwrapTrue := core.PredEdges(r.Receiver, true, func(cond ssa.Value) (bool, bool) {
+			cl, ok := core.CallTo(cond, func(f *types.Func) bool {
+				if f.Pkg() == nil || (f.Pkg().Path() != "errors" && f.Pkg().Path() != "github.com/go-faster/errors") {
+					return false
+				}
+				return f.Name() == "As" || f.Name() == "Is"
+			})
+			if !ok || len(cl.Call.Args) < 1 {
+				return false, false
+			}
+			// the error itself, or - inside a boolean helper - the helper's error parameter
+			if _, isParam := cl.Call.Args[0].(*ssa.Parameter); !al[cl.Call.Args[0]] && !(isParam && cl.Parent() != r.Receiver) {
+				return false, false
+			}
+			return true, true
+		})
+		timeoutTrue := core.PredEdges(r.Receiver, true, func(cond ssa.Value) (bool, bool) {
+			cl, ok := cond.(*ssa.Call)
+			if !ok {
+				return false, false
+			}
+			f := core.CalleeFunc(cl)
+			return true, f != nil && f.Name() == "Timeout"
+		})
+		isDeadline := core.PredEdges(r.Receiver, true, func(cond ssa.Value) (bool, bool) {
+			// errors.Is(err, os.ErrDeadlineExceeded) form needs no Timeout()
+			cl, ok := core.CallTo(cond, func(f *types.Func) bool { return f.Name() == "Is" })
+			if !ok || len(cl.Call.Args) != 2 {
+				return false, false
+			}
+			u, ok := cl.Call.Args[1].(*ssa.UnOp)
+			if !ok {
+				return false, false
+			}
+			g, ok := u.X.(*ssa.Global)
+			return true, ok && g.Name() == "ErrDeadlineExceeded"
+		})
+		// nil edge of the error
+		nilEdge := func(b *ssa.BasicBlock, i int) bool {
+			if ifi, ok := b.Instrs[len(b.Instrs)-1].(*ssa.If); ok {
+				if ns, ok := core.NilTest(ifi, al); ok && ns == i {
+					return false
+				}
+			}
+			return true
+		}
+		key := core.CallKey(r.Receiver, call)
+		// paths from the call, on its error branch, back to the call
+		back := func(filter core.EdgeFilter) bool {
+			w := core.ReachAvoiding(core.PointOf(in), func(x ssa.Instruction) bool { return x == in }, nil,
+				func(b *ssa.BasicBlock, i int) bool { return nilEdge(b, i) && (filter == nil || filter(b, i)) })
+			return len(w) > 0
+		}
+		switch {
+		case !back(nil):
+			c.R.Bad(rule, key, cfg, p.Pos(in.Pos()), "a read timeout between packets is no longer retried: no path leads from a failed packet() back to the next read")
+		case back(core.WithoutEdges(unwrapTrue)):
+			c.R.Bad(rule, key, cfg, p.Pos(in.Pos()), "the retry is reachable without an unwrapping test (errors.As / errors.Is) of the packet error: either every error is retried or - since packet() wraps its error - the timeout is never recognised")
+		case len(isDeadline) == 0 && back(core.WithoutEdges(timeoutTrue)):
+			c.R.Bad(rule, key, cfg, p.Pos(in.Pos()), "the retry does not depend on Timeout(): non-timeout network errors are retried forever")
+		default:
+			c.R.Ok(rule, key, cfg, p.Pos(in.Pos()), "retry <=> errors.As(err, *net.OpError) && Timeout()")
+		}
+		// once the error is recognised as a timeout, the only way out other than the next
+		// read is the loop's own test of the context
+		recognised := timeoutTrue
+		if len(isDeadline) > 0 {
+			recognised = append(append([]core.Edge{}, timeoutTrue...), isDeadline...)
+		}
+		for _, e := range recognised {
+			hits := core.ReachAvoiding(core.Point{B: e.B.Succs[e.Succ], I: -1}, func(x ssa.Instruction) bool {
+				ret, ok := x.(*ssa.Return)
+				if !ok || x.Block().Comment == "recover" {
+					return false
+				}
+				rv := core.ReturnErr(r.Receiver, ret)
+				return !(rv != nil && chainKeeps(rv, isCtxErr, 0))
+			}, func(x ssa.Instruction) bool { return x == in }, nil)
+			if len(hits) > 0 {
+				c.R.Bad(rule, key+"/timeout-exit", cfg, p.Pos(hits[0].At.Pos()), "after the read error has been recognised as a timeout the receive loop can still return something other than ctx.Err(): an idle gap between packets ends a live query although the context is not done")
+			} else {
+				c.R.Ok(rule, key+"/timeout-exit", cfg, p.Pos(in.Pos()), "from the timeout branch only the next read or `return ctx.Err()` is reachable")
+			}
+		}
+	}
 }
